@@ -8,7 +8,8 @@ import random
 BENIGN = ["Sender", "Subject", "toto@toto.com", "INBOX", "Folder.Sub", "x y", "list-id",
           "2019-02-26", "hello", "*", "a@b.example", "X-Spam-Flag"]
 SOFT = ["a,b", "a, b", "[x]", "]", "[", "a b,c", "été", "€uro", "ünï", " lead", "trail ",
-        "a;b", "{x}", "#c", "(p)", "a:b", ":tagish", "100%", "тест", "日本"]
+        "a;b", "{x}", "#c", "(p)", "a:b", ":tagish", "100%", "тест", "日本", "two\r\nlines",
+        "l1\nl2\n"]
 HOSTILE = ['a"b', 'x"', 'a\\b', 'x\\', '\\"', 'a"; discard; #', '"]; stop; #'[1:],
            'a\nb', 'a\r\nb', 'a" , "b', 'q"] ["z', "a'b", ""]
 
